@@ -3,10 +3,124 @@ package main
 import (
 	"bytes"
 	"fmt"
+	"sync"
+	"time"
+
+	"github.com/free5gc/go-gtp5gnl"
 
 	"github.com/free5gc/go-upf/internal/gtpv1"
 	"github.com/free5gc/go-upf/internal/verif/vh"
 )
+
+// c14Writer: the property is about what leaves the UPF, so besides the encoder the writer around it
+// (Gtp5g.WritePacket: message assembly, buffer handling, the socket write) is driven with SEQUENCES of
+// packets - lengths going up and down, with and without a QoS flow, changing TEIDs - and every datagram
+// that arrives at a UDP listener is decoded by the independent decoder: the datagram must end where the
+// length field says, carry exactly its own payload, and nothing of an earlier packet.
+type c14Pkt struct {
+	Len  int    `json:"payload_len"`
+	QFI  int    `json:"qfi"` // -1: no QoS flow
+	TEID uint32 `json:"teid"`
+}
+
+var c14w struct {
+	once sync.Once
+	d    *vh.SimDriver
+	g    *vh.GNB
+	err  error
+}
+
+func c14Writer(res *vh.Result, ci int, rng *vh.Rng) {
+	c14w.once.Do(func() {
+		c14w.d, c14w.err = vh.NewSimDriver(vh.SimDriverOpts{WG: &sync.WaitGroup{}})
+		if c14w.err == nil {
+			c14w.g, c14w.err = vh.NewGNB(1)
+		}
+	})
+	if c14w.err != nil {
+		res.Inconc("writer set-up: " + c14w.err.Error())
+		return
+	}
+	c14w.g.Take()
+	n := rng.Range(4, 14)
+	var seq []c14Pkt
+	var pays [][]byte
+	for k := 0; k < n; k++ {
+		p := c14Pkt{QFI: -1, TEID: rng.U32()}
+		switch rng.Intn(6) {
+		case 0:
+			p.Len = rng.Range(1200, 1500)
+		case 1:
+			p.Len = rng.Intn(9)
+		case 2:
+			p.Len = 0
+		default:
+			p.Len = rng.Intn(1501)
+		}
+		if rng.Chance(2, 3) {
+			p.QFI = rng.Intn(64)
+		}
+		seq = append(seq, p)
+		pay := rng.Bytes(p.Len)
+		pays = append(pays, pay)
+		far := &gtp5gnl.FAR{ID: 1, Param: &gtp5gnl.ForwardParam{Creation: &gtp5gnl.HeaderCreation{Desc: 0x100, TEID: p.TEID, PeerAddr: c14w.g.IP, Port: 2152}}}
+		var qer *gtp5gnl.QER
+		if p.QFI >= 0 {
+			qer = &gtp5gnl.QER{ID: 1, QFI: uint8(p.QFI)}
+		}
+		if err := c14w.d.G.WritePacket(far, qer, pay); err != nil {
+			res.Violate(ci, "c14:writer-error", fmt.Sprintf("packet %d (%v): WritePacket: %v", k, p, err), map[string]interface{}{"sequence": seq})
+			return
+		}
+	}
+	var got []*vh.GPkt
+	deadline := time.Now().Add(3 * time.Second)
+	for len(got) < n && time.Now().Before(deadline) {
+		got = append(got, c14w.g.Take()...)
+		if len(got) < n {
+			time.Sleep(200 * time.Microsecond)
+		}
+	}
+	viol := func(kind, desc string) {
+		res.Violate(ci, "c14:writer-"+kind, desc, map[string]interface{}{"sequence": seq})
+	}
+	if len(got) != n {
+		res.Inconc(fmt.Sprintf("case %d: %d of %d datagrams arrived at the listener within 3 s", ci, len(got), n))
+		return
+	}
+	for k, d := range got {
+		p := seq[k]
+		res.Evaluations++
+		res.DistinctMore++
+		if d.Err != nil || d.G == nil {
+			viol("malformed", fmt.Sprintf("packet %d (%+v) after %+v: not a well-formed G-PDU: %v (datagram of %d octets)", k, p, seq[:k], d.Err, len(d.B)))
+			continue
+		}
+		g := d.G
+		switch {
+		case g.Version != 1 || g.PT != 1 || g.Type != 255:
+			viol("header", fmt.Sprintf("packet %d: version %d PT %d type %d", k, g.Version, g.PT, g.Type))
+		case g.TEID != p.TEID:
+			viol("teid", fmt.Sprintf("packet %d: TEID %#x, given %#x", k, g.TEID, p.TEID))
+		case !bytes.Equal(g.Payload, pays[k]):
+			viol("payload", fmt.Sprintf("packet %d (%d octets given): %d payload octets on the wire, differing from what was given (earlier lengths %v)", k, p.Len, len(g.Payload), seq[:k]))
+		}
+		if p.QFI >= 0 {
+			if len(g.Exts) != 1 || g.Exts[0].Type != 0x85 {
+				viol("container", fmt.Sprintf("packet %d: QoS flow %d applies but %d extension headers", k, p.QFI, len(g.Exts)))
+			} else if pt, q, _ := g.Exts[0].PDUSession(); int(q) != p.QFI || pt != 0 {
+				viol("qfi", fmt.Sprintf("packet %d: PDU type %d QFI %d on the wire, QFI %d given", k, pt, q, p.QFI))
+			}
+		} else if len(g.Exts) != 0 {
+			viol("container-spurious", fmt.Sprintf("packet %d: no QoS flow but %d extension headers", k, len(g.Exts)))
+		}
+	}
+	res.Count("writer_sequences", 1)
+	res.Count("writer_datagrams", int64(n))
+	if ci%97 == 0 {
+		res.Sample(map[string]interface{}{"writer_sequence": seq})
+	}
+}
 
 func init() { checks["c14"] = runC14 }
 
@@ -88,7 +202,8 @@ func c14Check(c c14Case, payload []byte) (string, string, []byte) {
 func runC14(res *vh.Result) {
 	res.Rule = "gtpv1.Message{Flags:0x34}.Encode decoded by an independent GTP-U decoder; core grid QFI 0..63 x PDU type 0..15 x " +
 		"{with,without container} enumerated completely for each (TEID, payload length) pair of the tier; a case is non-trivial when it " +
-		"carries the container or a non-empty payload; distinct = distinct (qfi,pdu type,ext,teid,length) tuples"
+		"carries the container or a non-empty payload; distinct = distinct (qfi,pdu type,ext,teid,length) tuples; plus sequences of 4-14 packets " +
+		"(lengths up and down, with/without QoS flow) through the real Gtp5g.WritePacket to a UDP listener, every datagram decoded by the same decoder"
 	res.Assumptions = []string{
 		"reference decoder written from TS 29.281 §5.1/5.2 and TS 38.415 §5.5.2 (harness code)",
 		"only the header form go-upf emits (flags 0x34) is in scope",
@@ -115,8 +230,13 @@ func runC14(res *vh.Result) {
 	}
 	base := len(pairs)
 	total := base + extraPairs
+	nwriter := vh.Tiered(400, 20000)
 	seen := map[string]bool{}
-	res.Cases(total, func(i int, rng *vh.Rng) {
+	res.Cases(total+nwriter, func(i int, rng *vh.Rng) {
+		if i >= total {
+			c14Writer(res, i, rng)
+			return
+		}
 		var p pair
 		if i < base {
 			p = pairs[i]
